@@ -105,7 +105,7 @@ PROPS = {
         assumptions=['engine-level re-timestamping during rebuild and the join engine honouring the constraints are assumed'],
     ),
     'C16': dict(
-        units=['disp', 'swt'],
+        units=['disp', 'swt', 'index'],
         kani_quick=[],
         kani_thorough=['id_axioms_u32', 'uf_reset', 'offsets_intersect_dense_dense', 'offsets_scan_for_offset', 'offsets_binary_search_from'],
         design_ref='DESIGN.md section 4 (U-DISP, U-SWT, U-OFF) and section 5 C16',
@@ -116,7 +116,7 @@ PROPS = {
                    'EXACTLY the rows satisfying the constraint, timestamp range search returns exactly the rows with that timestamp. Built on the verified '
                    'UnionFind (same generated file, callers checked against its contracts). For SortedWritesTable (unit swt): binary_search_sort_val returns exactly the row range of the run '
                    'with the given sort value (or the partition point), and fast_subset on the sort column returns EXACTLY the rows whose sort value (timestamp) satisfies the constraint, '
-                   'over the offsets abstraction (runs of strictly increasing sort values and row ids). The row store, hash shards, insert/rehash/rebuild of SortedWritesTable are NOT covered.',
+                   'over the offsets abstraction (runs of strictly increasing sort values and row ids). (unit index) SubsetTracker::recent_updates hands out only the rows added since the version seen last within a major generation and everything otherwise, and records the version; Index::refresh is a no-op iff the versions agree, a full rebuild iff the major generation changed, the delta otherwise, and ends at the table\'s version. The row store, hash shards, insert/rehash/rebuild of SortedWritesTable and the index contents are NOT covered.',
         level_note='Trusted: HashMap as a finite map (A-hash), [T]::binary_search_by_key specification for a total key closure (A-std), NumericId axioms, '
                    'UnionFind::reset (iterator adapters; assumed), OffsetRange::new debug_assert taken as precondition; merge()/get_row() (SegQueue, pool closures) not covered. '
                    'Trait impl `impl Table for DisplacedTable` emitted as inherent impl (R-INHERENT).',
